@@ -72,6 +72,7 @@ def run(tier, seed, replay):
         fc.result()
     exe = os.path.join(bindir, "c16")
     scratch = vcommon.scratch_dir("c16")
+    t0 = os.times()
     try:
         env = vcommon.base_env()
         if replay is not None:
@@ -176,6 +177,8 @@ def run(tier, seed, replay):
             "(rust/borrowed-duplicate is excluded as a whole variant on random worlds because the declared defect is not characterised)",
             "generators are built in the dev profile with the verification cfg; each generator instance is used once",
         ]
+        t1 = os.times()
+        rep.extra["children_cpu_s"] = round((t1.children_user - t0.children_user) + (t1.children_system - t0.children_system), 1)
         return rep
     finally:
         vcommon.rm_scratch(scratch)
